@@ -83,6 +83,7 @@ func run(col *core.Collector, prop, tier, variant string, seed uint64, shard, ns
 		seq.RunProperty(col, prop, tier, seed, shard, nshards, replayDir)
 		seq.RunSched(col, tier, seed, shard, nshards, replayDir)
 		seq.RunReadSched(col, tier, seed, shard, nshards, replayDir)
+		seq.RunSweepRace(col, tier, seed, shard, nshards, replayDir)
 		seq.RunExtend(col, tier, seed, shard, nshards, replayDir)
 	case "C20", "C04", "C05", "C06":
 		if variant == "plain" {
@@ -128,6 +129,8 @@ func replayFile(col *core.Collector, prop, path string) error {
 		return seq.ReplaySched(col, data, path)
 	case bytes.Contains(data, []byte(`"persist_case"`)):
 		return seq.ReplayPersist(col, data, path)
+	case bytes.Contains(data, []byte(`"sweeprace_case"`)):
+		return seq.ReplaySweepRace(col, data, path)
 	case bytes.Contains(data, []byte(`"readsched_case"`)):
 		return seq.ReplayReadSched(col, data, path)
 	case bytes.Contains(data, []byte(`"extend_case"`)):
